@@ -35,8 +35,12 @@ def histories(ctx):
         dict(solver="vi", f=2, m=2, asy=True, k1=5, k2=3),
     ]
     H.append(dict(solver="vi", f=2, m=2, asy=True, k1=5, k2=None, crc="tmp-present", k2c=3))
+    # periodic VI saving at EVERY iteration, so that every position of the circular-buffer cursor
+    # (including the last slot) is checkpointed and recovered
+    H.append(dict(solver="pvi", f=1, m=2, asy=True, k1=4, k2=None))
     if not q:
         H = []
+        H.append(dict(solver="pvi", f=1, m=1, asy=False, k1=8, k2=3))
         for crc in ("tmp-present", "just-committed", "deletion-half-done"):
             for solver, asy in (("vi", True), ("pvi", True), ("rvi", False)):
                 H.append(dict(solver=solver, f=2, m=2, asy=asy, k1=5, k2=None, crc=crc, k2c=3))
